@@ -412,12 +412,13 @@ class C12(Sim):
                 elif fx(ov.previous_value) != fx(m.prev):
                     viol = Violation("previous_value_differs_from_model", i, opkind=kind, got=fx(ov.previous_value),
                                      expected=fx(m.prev))
-                elif kind != "clear" and (ov.fuzzy.terms is not terms_list or [id(t) for t in ov.fuzzy.terms][:len(terms_ids)] != terms_ids
-                                          or (kind != "fill" and len(ov.fuzzy.terms) != len(terms_ids))):
-                    viol = Violation("fuzzy_output_changed_by_defuzzification", i, opkind=kind)
-                elif len(ov.fuzzy.terms) != m.nterms:
-                    viol = Violation("fuzzy_output_changed_by_defuzzification", i, opkind=kind, terms=len(ov.fuzzy.terms),
-                                     expected=m.nterms)
+                elif kind == "fail" and m.enabled and [id(t) for t in ov.fuzzy.terms] != terms_ids:
+                    # C12 speaks about the fuzzy output only for the failing case
+                    viol = Violation("fuzzy_output_changed_by_failed_defuzzification", i, opkind=kind, terms=len(ov.fuzzy.terms),
+                                     expected=len(terms_ids))
+                elif kind == "call" and [id(t) for t in ov.fuzzy.terms] != terms_ids:
+                    st.hit("outcomes.fuzzy_output_changed_by_successful_defuzzification")  # counted, not judged
+                    m.nterms = len(ov.fuzzy.terms)
             if viol is not None:
                 out.violation = viol
                 break
